@@ -624,7 +624,25 @@ def run(ctx, rep):
             if k in ("scalars", "tables", "opaque-constants") and isinstance(rv, dict) and isinstance(cv, dict):
                 # compared by value only; the names are carried along for the report
                 same = sorted(rv) == sorted(cv)
-                if not same:
+                if not same and k == "scalars":
+                    # naming a literal (or writing a named constant out) changes nothing: a value that merely moves between
+                    # "named scalar" and "literal" is accounted for by the literal signatures, which are compared on their own
+                    def _lits(S):
+                        out = set()
+                        for x in S.get("thresholds", []) or []:
+                            out.add(str(x[0][-1]))
+                        for x in S.get("arith", []) or []:
+                            out |= {str(y) for y in x[0][1:]}
+                        for x in S.get("literals", []) or []:
+                            out.add(str(x[0]))
+                        return out
+                    rl, cl = _lits(ref.get(part, {})), _lits(cur.get(part, {}))
+                    gone = {x: rv[x] for x in rv if x not in cv and x not in cl}
+                    new = {x: cv[x] for x in cv if x not in rv and x not in rl}
+                    same = not gone and not new
+                    if not same:
+                        rv, cv = "values no longer referenced: %s" % gone, "new values: %s" % new
+                elif not same:
                     gone = {x: rv[x] for x in rv if x not in cv}
                     new = {x: cv[x] for x in cv if x not in rv}
                     rv, cv = "values no longer referenced: %s" % gone, "new values: %s" % new
